@@ -7,7 +7,12 @@
                                time to /repo's working tree and reverted straight afterwards;
                                also every kept seeded change under /verif/seeded/*/patch.diff
 
-Neither is a registered check; both refuse to run when /repo has uncommitted changes.
+  check selftest coverage      reach measurement: the iosim and treapsim engines are rebuilt with
+                               source-based coverage instrumentation (nightly, scratch target dir
+                               under /tmp, removed afterwards) and run on a reduced quick workload;
+                               reports which lines of the anchored library files were executed
+
+None is a registered check; the first two refuse to run when /repo has uncommitted changes.
 """
 
 import json, os, subprocess, sys, time, glob
@@ -255,6 +260,70 @@ def determinism(args):
     return 0 if problems == 0 else 1
 
 
+def coverage(args):
+    import shutil, tempfile
+    tools = glob.glob(os.path.expanduser("~/.rustup/toolchains/nightly-x86_64-unknown-linux-gnu/lib/rustlib/*/bin"))
+    if not tools or not os.path.exists(os.path.join(tools[0], "llvm-cov")):
+        raise HarnessError("llvm-tools of the nightly toolchain not found")
+    tools = tools[0]
+    scratch = tempfile.mkdtemp(prefix="verif-cov-")
+    try:
+        env = dict(ENV)
+        env["RUSTFLAGS"] = "-C instrument-coverage"
+        env["CARGO_TARGET_DIR"] = os.path.join(scratch, "target")
+        p = subprocess.run(["cargo", "+nightly", "build", "--offline", "--quiet", "--manifest-path", os.path.join(SIM, "Cargo.toml"), "--profile", "sim-dbg", "-p", "iosim", "-p", "treapsim"], cwd=SIM, env=env, stdout=subprocess.PIPE, stderr=subprocess.STDOUT, text=True)
+        if p.returncode != 0:
+            sys.stderr.write(p.stdout[-3000:])
+            raise HarnessError("instrumented build failed")
+        bindir = os.path.join(scratch, "target", "sim-dbg")
+        report = {}
+        plans = {
+            "iosim": (
+                [["reader", "--runs", "30000", "--long", "300"], ["writer", "--runs", "6000", "--sweep", "1"], ["census", "--side", "writer", "--every32", "512", "--wide-blocks", "4"], ["census", "--side", "reader", "--every32", "512", "--wide-blocks", "4"]],
+                ["rlib/io/src/reader.rs", "rlib/io/src/writer.rs"],
+            ),
+            "treapsim": (
+                [["ctl", "--runs", "50000"]] + [["real", "--history", str(h), "--n", "3000", "--mode", "1", "--stride", "3", "--seed", "7"] for h in range(vcheck.N_HISTORIES)],
+                ["rlib/treap/src/treap.rs", "rlib/treap/src/treap_node.rs", "rlib/rand/src/lcg.rs"],
+            ),
+        }
+        for engine, (cmds, files) in plans.items():
+            raw = os.path.join(scratch, engine)
+            os.makedirs(raw)
+            e2 = dict(ENV)
+            e2["LLVM_PROFILE_FILE"] = os.path.join(raw, "%p.profraw")
+            for i, c in enumerate(cmds):
+                extra = ["--out", os.path.join(raw, "out%d.json" % i), "--replay-dir", raw] if c[0] in ("reader", "writer", "ctl", "census") else []
+                if c[0] in ("reader", "writer", "census"):
+                    extra += ["--tag", "cov"]
+                rc, so, se = run([os.path.join(bindir, engine)] + c + extra, env=e2, timeout=3600)
+                if rc != 0:
+                    raise HarnessError("instrumented %s %s failed: %s" % (engine, c[0], se[-400:]))
+            prof = os.path.join(raw, "merged.profdata")
+            subprocess.check_call([os.path.join(tools, "llvm-profdata"), "merge", "-sparse", "-o", prof] + glob.glob(os.path.join(raw, "*.profraw")))
+            paths = [os.path.join(REPO, f) for f in files]
+            exp = subprocess.run([os.path.join(tools, "llvm-cov"), "export", os.path.join(bindir, engine), "-instr-profile=" + prof] + paths, stdout=subprocess.PIPE, stderr=subprocess.PIPE, text=True)
+            data = json.loads(exp.stdout)["data"][0]
+            for f in data["files"]:
+                rel = os.path.relpath(f["filename"], REPO)
+                # segments: [line, col, count, has_count, is_region_entry, is_gap]
+                missed = sorted(set(seg[0] for seg in f["segments"] if seg[3] and seg[4] and seg[2] == 0))
+                summ = f["summary"]
+                report[rel] = {
+                    "engine": engine,
+                    "lines": summ["lines"]["count"], "lines_executed": summ["lines"]["covered"],
+                    "regions": summ["regions"]["count"], "regions_executed": summ["regions"]["covered"],
+                    "functions": summ["functions"]["count"], "functions_executed": summ["functions"]["covered"],
+                    "lines_with_an_unexecuted_region": missed,
+                }
+                log("%-32s %-9s lines %d/%d regions %d/%d functions %d/%d unexecuted regions start at lines %s" % (rel, engine, summ["lines"]["covered"], summ["lines"]["count"], summ["regions"]["covered"], summ["regions"]["count"], summ["functions"]["covered"], summ["functions"]["count"], missed))
+        os.makedirs(os.path.join(VERIF, "selftest"), exist_ok=True)
+        json.dump({"profile": "sim-dbg (debug assertions on)", "workload": "reduced quick workload, see lib/selftest.py coverage()", "files": report}, open(os.path.join(VERIF, "selftest", "coverage.json"), "w"), indent=1)
+    finally:
+        shutil.rmtree(scratch, ignore_errors=True)
+    return 0
+
+
 def main(argv):
     if not argv:
         sys.stderr.write(__doc__)
@@ -263,5 +332,7 @@ def main(argv):
         return determinism(argv[1:])
     if argv[0] == "sensitivity":
         return sensitivity(argv[1:])
+    if argv[0] == "coverage":
+        return coverage(argv[1:])
     sys.stderr.write(__doc__)
     return 2
